@@ -28,7 +28,8 @@ Lemma layers_roundtrip i c n : exists j,
   (forall ks, fst (hop all_knowing (Wrap i (WTelemetry ks) c) n) = Wrap j (WTelemetry ks) (fst (hop all_knowing c n))) /\
   (forall d, fst (hop all_knowing (Wrap i (WDomain d) c) n) = Wrap j (WDomain d) (fst (hop all_knowing c n))) /\
   (fst (hop all_knowing (Wrap i WAssert c) n) = Wrap j WAssert (fst (hop all_knowing c n))) /\
-  (forall m, fst (hop all_knowing (Wrap i (WMark m) c) n) = Wrap j (WMark m) (fst (hop all_knowing c n))) /\
+  (forall m, em_types m <> [] ->
+     fst (hop all_knowing (Wrap i (WMark m) c) n) = Wrap j (WMark m) (fst (hop all_knowing c n))) /\
   (forall code, fst (hop all_knowing (Wrap i (WGrpc code) c) n) = Wrap j (WGrpc code) (fst (hop all_knowing c n))) /\
   (forall code, (0 <= code)%Z ->
      fst (hop all_knowing (Wrap i (WHTTP code) c) n) = Wrap j (WHTTP code) (fst (hop all_knowing c n))).
@@ -43,7 +44,7 @@ Proof.
   - reflexivity.
   - reflexivity.
   - reflexivity.
-  - destruct m; reflexivity.
+  - destruct m as [msg [|t tys]]; [cbn in *; contradiction|reflexivity].
   - reflexivity.
   - cbn. rewrite Z2N.id by assumption. reflexivity.
 Qed.
